@@ -47,6 +47,12 @@ res['confirmed'] = bool(res.get('applies') and res.get('demo_without_change') ==
 rc, out = sh('git -C /repo status --short')
 assert out.strip() == '', 'repo not clean: ' + out
 rc, out = sh('git -C /repo apply %s' % patch)
+if rc != 0:
+    # /repo has moved on (fix commits) since the change was written: three-way merge, working tree only
+    rc, out = sh('git -C /repo apply -3 %s && git -C /repo reset -q' % patch)
+    res['applied_to_repo_by'] = '3way' if rc == 0 else 'FAILED: ' + out[-200:]
+    if rc != 0:
+        sh('git -C /repo checkout -- . ; git -C /repo reset -q; git -C /repo checkout -- .')
 caught = {}
 try:
     if rc == 0:
